@@ -7,7 +7,9 @@ CENSUS = {
     'C04': ['Storage::rollback_to_block' + S],
     'C08': ['Storage::add_matched_blocks' + S, 'Storage::remove_matched_blocks' + S, 'Storage::update_min_filtered_block_number' + S],
     'C09': ['Storage::update_filter_scripts' + S],
-    'C16': ['Storage::add_fetched_header' + S, 'Storage::add_fetched_tx' + S],
+    'C16': ['Storage::add_fetched_header' + S, 'Storage::add_fetched_tx' + S, '<ChainRpcImpl as ChainRpc>::fetch_header',
+            '<TransactionRpcImpl as TransactionRpc>::fetch_transaction', 'Storage::get_transaction_with_header'],
+    'C18': ['+PendingTxs::push', '~+PendingTxs::fetch_transaction_hashes_for_broadcast'],
     'C01': ['check_if_response_is_matched', 'check_continuous_headers', 'verify_mmr_proof',
             '<HeaderView as HeaderUtils>::is_parent_of', '<VerifiableHeader as VerifiableHeaderPatch>::patched_is_valid',
             '<VerifiableHeader as VerifiableHeaderPatch>::checked_total_difficulty',
@@ -22,6 +24,8 @@ CENSUS = {
             'Peers::required_peers_count', 'Storage::update_check_points' + S, 'Storage::update_max_check_point_index' + S],
     'C12': ['ProveState::is_parent_of', 'check_last_state', 'ProveState::new_child', 'ProveState::is_same_as',
             'Storage::update_last_state' + S, 'Storage::update_last_n_headers' + S],
+    'C13': ['~<BlockFilterRpcImpl as BlockFilterRpc>::get_cells', '~<BlockFilterRpcImpl as BlockFilterRpc>::get_cells_capacity',
+            '~<BlockFilterRpcImpl as BlockFilterRpc>::get_transactions'],
     'C14': ['verify_tau', 'verify_total_difficulty'],
     'C15': ['sample_blocks', 'estimate_k', 'estimate_samples_count', 'multiply', 'FlyClientPDF::gen_x', 'FlyClientPDF::random_sample',
             'FlyClientPDF::sampling', 'LightClientProtocol::build_prove_request_content',
@@ -32,4 +36,4 @@ CENSUS = {
 def run(ctx, pid):
     from engine import census
     for f in CENSUS.get(pid, []):
-        census.check(ctx, pid + '.ref', f.lstrip('+').split('@')[0])
+        census.check(ctx, pid + '.ref', f.lstrip('+~').split('@')[0])
